@@ -47,3 +47,14 @@ Proof.
   destruct (C16_logger (list B) lat sync0 cap blocks c Hc Hr Hret) as [A1 A2]. rewrite A1, A2. split; reflexivity.
 Qed.
 Print Assumptions C16_bytes.
+
+(* Not only at the end: at every moment of every execution - whatever the interleaving of the copy loop and the
+   recorder, the channel's capacity and kind, the recorder's latency, and whether or not main waits at the end -
+   standard output holds a prefix of the input and the record holds a prefix of standard output: nothing is ever
+   altered, reordered or recorded before it has been passed through. *)
+Theorem C16_prefixes_always : forall (V : Type) lat (wait sync0 : bool) cap (blocks : list V) c, (1 <= cap)%nat ->
+  reachable _ _ _ (prog V lat true wait sync0) sender receiver (MDone V) (init V cap blocks) c ->
+  exists ahead rest, passes V (main_out V c) = (writes V (writer_out V c) ++ ahead)%list /\
+                     blocks = (passes V (main_out V c) ++ rest)%list.
+Proof. exact prefixes_always. Qed.
+Print Assumptions C16_prefixes_always.
